@@ -2,6 +2,8 @@ import SamVerif.Model.CompileGate
 import SamVerif.Lemmas.MatchLowerBind
 import SamVerif.Lemmas.EnumRepr
 import SamVerif.Lemmas.BoundCheck
+import SamVerif.Lemmas.CastInsert
+import SamVerif.Lemmas.C03Live
 import SamVerif.Lemmas.C03Opt
 import SamVerif.Lemmas.C03Str
 import SamVerif.Props.C07
@@ -436,5 +438,102 @@ theorem bounds_gate (sat : Nat → Nat → Bool) (params : List (Option Nat)) (a
 example : validate (fun a b => a == b) [none, some 7] [1, 2] = [1] := by decide
 example : validateMapWhile (fun a b => a == b) [none, some 7] [1, 2] 0 = [] := by decide
 end bounds
+
+/-! ## 7. Type-erased context parameters are downcast wherever a concrete reference is required -/
+section castinsert
+open SamVerif.CastInsert
+
+/-- **erased_uses_validate**: for every place a value flows into - `struct.new` field, function result,
+assignment to a declared local (if-else finals, break and loop values, late init), direct / indirect
+call argument, pointer of a `struct.get` - the operand the lowering emits has a type the validator
+accepts there, whenever the LIR is well typed up to erasure (the local is declared at the place's type
+or erased to `(ref eq)`, as every method's `_this` is).  I.e. every use of an erased `_this` at a
+declared reference type is preceded by the downcast. -/
+theorem erased_uses_validate (Γ : Locals) (s : Sink) (h : s.ok Γ) :
+    validates Γ s (lowerSink Γ s) = true := by
+  cases s with
+  | structField e t => exact lowerFor_validates Γ e t h
+  | ret e t => exact lowerFor_validates Γ e t h
+  | assign e t => exact lowerFor_validates Γ e t h
+  | arg e t => exact lowerFor_validates Γ e t h
+  | load n t => exact lowerPtr_validates Γ n t h
+
+/-- the downcast is inserted only where it is needed: a local that already has the place's type is
+read as it is (no cast that could trap is added to well-typed, unerased code) -/
+theorem no_cast_without_erasure (Γ : Locals) (n : Nat) (occ target : WTy) (h : Γ n = target) (hne : target ≠ .eq) :
+    lowerFor Γ (.var n occ) target = .get n := by
+  cases target with
+  | i32 => rfl
+  | eq => exact absurd rfl hne
+  | ref t => simp [lowerFor, h]
+
+/-- **Historical witness (finding C03-F11, fixed by 0ba77ec)**: with the lowering before the fix, the
+erased `_this` (local 0 : `(ref eq)`) stored into a struct field, returned or assigned at type
+`(ref $7)` is well typed LIR and does NOT validate. -/
+theorem erased_uses_old_counterexample :
+    let Γ : Locals := fun _ => .eq
+    (Sink.structField (.var 0 (.ref 7)) (.ref 7)).ok Γ ∧
+    validates Γ (.structField (.var 0 (.ref 7)) (.ref 7)) (lowerSinkOld Γ (.structField (.var 0 (.ref 7)) (.ref 7))) = false ∧
+    validates Γ (.ret (.var 0 (.ref 7)) (.ref 7)) (lowerSinkOld Γ (.ret (.var 0 (.ref 7)) (.ref 7))) = false ∧
+    validates Γ (.structField (.var 0 (.ref 7)) (.ref 7)) (lowerSink Γ (.structField (.var 0 (.ref 7)) (.ref 7))) = true := by
+  refine ⟨⟨rfl, Or.inr ⟨rfl, 7, rfl⟩⟩, by decide, by decide, by decide⟩
+
+/-- **context_signature_survives_tailrec**: the emitted parameter types of a closure-callable function
+(context erased to `(ref eq)`, which is what `call_indirect` expects) are the same before and after the
+tail-recursion rewrite has renamed its parameters. -/
+theorem context_signature_survives_tailrec (rest : List Nat) (tys : List WTy) :
+    erasedSig isContext ((THIS :: rest).map tailrec) tys = erasedSig isContext (THIS :: rest) tys := by
+  cases tys with
+  | nil => rfl
+  | cons t ts => simp [erasedSig, isContext, THIS, tailrec]
+
+/-- **Historical witness (finding C03-F12, fixed by 2a09feb)**: with the old test (`== _this` only) the
+renamed method keeps its concrete context type, so its signature differs from the one `call_indirect`
+uses: the engine traps with `function signature mismatch`. -/
+theorem context_signature_old_counterexample :
+    erasedSig isContextOld ([THIS, 5].map tailrec) [.ref 7, .i32] ≠ erasedSig isContextOld [THIS, 5] [.ref 7, .i32] := by
+  decide
+
+example : lowerSink (fun n => if n = 0 then .eq else .ref 7) (.structField (.var 0 (.ref 7)) (.ref 7)) = .cast 7 0 := by rfl
+example : lowerSink (fun _ => .ref 7) (.structField (.var 3 (.ref 7)) (.ref 7)) = .get 3 := by rfl
+end castinsert
+
+/-! ## 8. A reference in any use position keeps the referenced entity (liveness of the use collector) -/
+section liveness
+open SamVerif.Opt SamVerif.C03Live
+
+/-- **sole_reference_kept**: if a statement that stays in the block reads `x` in ANY use position -
+operand, pointer of an access, struct field, closure context, call argument, variable callee, break
+value - then `x` is in the set the collector hands on, so the entity is not eliminated.  On C02's
+use-collector model (one constructor per use position), through `Lemmas/C03Live.lean`. -/
+theorem sole_reference_kept (p : List US) (live : List Nat) (s : US) (x : Nat)
+    (hs : s ∈ (dceU true p live).1) (hx : x ∈ s.uses true) : x ∈ (dceU true p live).2 :=
+  kept_uses_collected p live s hs x hx
+
+/-- a call or a break always stays, so whatever it mentions in any position is collected - even if it
+is the only mention in the whole block -/
+theorem effectful_reference_kept (p q : List US) (s : US) (live : List Nat) (x : Nat)
+    (hm : s.mustStay = true) (hx : x ∈ s.uses true) : x ∈ (dceU true (p ++ s :: q) live).2 :=
+  kept_uses_collected _ live s (mustStay_kept p q s live hm) x hx
+
+/-- **loop_value_reference_kept** (the position of seeded fault C03e): a name that occurs only in the
+LOOP VALUE (the argument of the self tail call) of a loop variable is among the names the `While` arm
+considers mentioned. -/
+theorem loop_value_reference_kept (lvs : List (Nat × Operand × Operand)) (body : List US)
+    (lv : Nat × Operand × Operand) (x : Nat) (hlv : lv ∈ lvs) (hx : x ∈ lv.2.2.vars) :
+    x ∈ whileMentioned lvs body := by
+  unfold whileMentioned
+  exact List.mem_append_left _ (List.mem_flatMap.mpr ⟨lv, hlv, List.mem_append_right _ hx⟩)
+
+-- one example per use position: the only mention of 9 is in that position, and 9 is collected
+example : 9 ∈ (dceU true [.call none [.var 9] none] []).2 := by decide                 -- call argument
+example : 9 ∈ (dceU true [.call (some 9) [] none] []).2 := by decide                   -- variable callee
+example : 9 ∈ (dceU true [.brk (.var 9)] []).2 := by decide                            -- break value
+example : 9 ∈ (dceU true [.strct 1 [.var 9], .brk (.var 1)] []).2 := by decide         -- struct field
+example : 9 ∈ (dceU true [.clo 1 (.var 9), .call (some 1) [] none] []).2 := by decide  -- closure context
+example : 9 ∈ (dceU true [.idx 1 (.var 9), .brk (.var 1)] []).2 := by decide           -- pointer
+example : 9 ∈ (dceU true [.bin 1 (.var 9) (.var 9), .brk (.var 1)] []).2 := by decide  -- operand
+example : 9 ∈ whileMentioned [(1, .var 2, .var 9)] [] := by decide                     -- loop value
+end liveness
 
 end SamVerif.C03
